@@ -33,6 +33,7 @@ type cwParked struct {
 	goid  int64
 	auto  bool // parked only to be serialised: resumed by the scheduler without a choice
 	who   string // yield points: the task (w1..w3, r1, r2, flusher, ...) if the goroutine is a task's own, else the class
+	ent   *simfs.Entry // the file-system operation itself (crash images: a parked write may land as a prefix)
 }
 
 func (p *cwParked) desc() string {
@@ -133,6 +134,9 @@ type cwSched struct {
 	yAuto     atomic.Int64     // arrivals parked for serialisation
 	nAuto     int64            // ... and resumed by the scheduler
 	stepNo    atomic.Int64
+	// suspended: a crash image is being recovered (c_crash.go); goroutines that are not tasks of the
+	// live run (the recovery's own, above all) pass every yield point
+	suspended atomic.Bool
 }
 
 var cwMicro = os.Getenv("CW_MICRO") != ""
@@ -292,7 +296,7 @@ func (s *cwSched) gate(d *simfs.Disk, e *simfs.Entry) {
 			return
 		}
 	}
-	p := &cwParked{class: class, kind: e.Kind, path: e.Path, off: e.Off, size: size, ch: make(chan struct{})}
+	p := &cwParked{class: class, kind: e.Kind, path: e.Path, off: e.Off, size: size, ch: make(chan struct{}), ent: e}
 	p.goid = cwGoID()
 	s.mu.Lock()
 	if s.free.Load() {
@@ -379,6 +383,10 @@ func (s *cwSched) yield(site string) {
 	gid := cwGoID()
 	s.mu.Lock()
 	who, task := s.goWho[gid]
+	if !task && s.suspended.Load() {
+		s.mu.Unlock()
+		return
+	}
 	if class == "write" || class == "other" {
 		c, ok := s.goAll[gid]
 		if !ok {
